@@ -1685,6 +1685,43 @@ func (e *Engine) freshInLoopObligations(p string) []*Obligation {
 	return out
 }
 
+// forbidGlobalObligations: "forbidglobal" - process-wide library state whose
+// content depends on the environment of the process (http.DefaultTransport
+// reads the proxy variables) is not used by the repository.
+func (e *Engine) forbidGlobalObligations(p string) []*Obligation {
+	var out []*Obligation
+	for _, r := range e.cs.ForbidGlobals {
+		if !hasProp(r.Props, p) {
+			continue
+		}
+		var uses []string
+		for _, f := range e.allFuncs {
+			if !e.inRepo(f) {
+				continue
+			}
+			for _, b := range f.Blocks {
+				for _, ins := range b.Instrs {
+					for _, op := range ins.Operands(nil) {
+						if g, ok := (*op).(*ssa.Global); ok && g.Pkg != nil && g.Pkg.Pkg.Path()+"."+g.Name() == r.Name {
+							uses = append(uses, fmt.Sprintf("%s (%s)", e.fset.Position(ins.Pos()), shortFuncName(f)))
+						}
+					}
+				}
+			}
+		}
+		ft := e.newFT(nil)
+		goal := "true"
+		detail := "no reference in the repository"
+		if len(uses) > 0 {
+			goal = "false"
+			detail = "used at " + strings.Join(uses, "; ")
+		}
+		out = append(out, &Obligation{Name: "scan/forbidglobal " + r.Name, Kind: "scan", Props: r.Props, Func: "scan", Pos: fmt.Sprintf("%s:%d", filepath.Base(r.File), r.Line),
+			Text: "the repository does not use " + r.Name, Goal: goal, Reach: "true", ft: ft, SrcLine: detail})
+	}
+	return out
+}
+
 func shortKey(k string) string {
 	if i := strings.LastIndex(k, "/"); i >= 0 {
 		return k[i+1:]
